@@ -11,7 +11,7 @@ def zinv(k, l, r, extra=""):
 
 UNIT = Unit(
     name="U-MUNIFY",
-    properties=["C07", "C04"],
+    properties=["C07", "C04", "C03"],
     rules=["attrs", "fmtmsg", "msg_to_string", "for_zip"],
     describe="mono::unify (call-site substitution): never changes an existing binding; on the ground diagonal (template without type "
              "parameters or inference variables, equal to the actual type) it succeeds and leaves the substitution unchanged — so a call to a "
